@@ -334,6 +334,20 @@ impl<'a> Gen<'a> {
                     for _ in 0..d {
                         self.do_disc();
                     }
+                    // requests served while the height is lower than it has been: a subscription created or
+                    // renewed now expires at a height the tower has already seen once
+                    for _ in 0..self.rng.below(3) {
+                        if self.sys.dead {
+                            break;
+                        }
+                        if self.rng.chance(2, 3) {
+                            let u = self.rng.range(1, self.nusers as u64) as u32;
+                            self.run_op(HOp::Reg { user: u });
+                        } else {
+                            let op = self.gen_add();
+                            self.run_op(op);
+                        }
+                    }
                     let extra = self.rng.below(3) as usize;
                     for _ in 0..(d + extra) {
                         if self.sys.dead {
